@@ -8,7 +8,7 @@
    (Gen/Schema.v); proved for arbitrary tables: what is accepted, what is rejected with a schema error at every depth, what a built
    environment consists of, that an unregistered name or a missing parameter never yields a component, that unaccepted parameters are
    ignored; by kernel evaluation: every shipped configuration tree validates and constructs.  Only statements. *)
-From Coq Require Import ZArith List Bool.
+From Coq Require Import ZArith List Bool Permutation.
 From GV.Gen Require Import Signatures Configs Schema.
 From GV.Model Require Import Factory Schema.
 From GV.Lemmas Require Import C17L C17G C17S C17T.
@@ -142,3 +142,7 @@ Proof. exact rejection_examples. Qed.
 (* what the harness reads out of the shipped files when it assembles the environments by hand is what the model's construction yields *)
 Theorem C17_shipped_descriptors_agree : (20 <= length shipped_described)%nat /\ forallb described_ok shipped_described = true.
 Proof. exact shipped_described_ok. Qed.
+(* the order in which a dictionary lists its entries is irrelevant to validation *)
+Theorem C17_entry_order_irrelevant : forall T k req opt wild kv kv', t_dict T k = Some (req, opt, wild) -> Permutation kv kv' ->
+  valid T k (CDict kv) = valid T k (CDict kv').
+Proof. exact valid_dict_perm. Qed.
